@@ -28,8 +28,14 @@ pub struct IggyTimestamp(SystemTime);
 pub const UTC_TIME_FORMAT: &str = "%Y-%m-%d %H:%M:%S";
 
 impl IggyTimestamp {
+    #[cfg(not(kani))]
     pub fn now() -> Self {
         IggyTimestamp::default()
+    }
+
+    #[cfg(kani)]
+    pub fn now() -> Self {
+        crate::verif_model::clock::now()
     }
 
     pub fn zero() -> Self {
